@@ -17,11 +17,11 @@ SPEC = dict(
           "connectViaListener, connect, close, burst (2-5 following operations without waiting), EAGAIN script for the next "
           "engine sendto/send calls}; sizes include 1, 2, 1472, 1473, ioReadChunk-1, ioReadChunk, 65507; peers 127.0.0.1:p, "
           "127.0.0.2:p (same port), 127.0.0.1:q, 127.0.0.3:r; ET/LT, batching, ioReadChunk in {65536,65507,2048,1472}, "
-          "maxWriteQueue in {1024,2}. idle: the same with idleTimeout=gcInterval=1 s and a 2.4 s phase in which only some "
+          "maxWriteQueue in {1024,2,1}, maxSessions in {0,1,2,3,4} (a new peer refused at the cap is documented behaviour and only counted). idle: the same with idleTimeout=gcInterval=1 s and a 2.4 s phase in which only some "
           "peers keep sending. Non-trivial = >=2 open sessions for one peer address at some point, or a close of a session "
           "between two datagrams of one peer; distinct by hash of the history."),
     assumptions=[
-        "documented contract: zero-length UDP sends are swallowed (not generated); datagrams never exceed ioReadChunk; maxSessions=0",
+        "documented contract: zero-length UDP sends are swallowed (not generated); datagrams never exceed ioReadChunk; at maxSessions new peers are refused (allowed), existing open sessions must keep receiving",
         "loopback UDP does not corrupt or duplicate datagrams; loss is possible and never counted as a failure",
         "all Transport callbacks are issued by one I/O thread, so the log order is the engine's order",
     ],
